@@ -477,3 +477,11 @@ with wt_o (rt : ty) (o : outcome) : Prop :=
   | RetRes r => res_has_ty rt r = true
   | RetAsync k p' => wt p' /\ exists w, prog_ty p' = Some (w, rt) /\ akind_of w = k
   end.
+
+(* ------------------------------------------------------------------ one shared source with several users *)
+(* A SharedFuture built once by a source chain and then returned from callbacks of several pipelines (and read
+   directly): every copy of the handle refers to one shared state (SharedCore), and reading that state — Get() const&,
+   async_done copying core.Get() for AsyncType::Shared (core.hpp:148-154), a callback registered on it — does not
+   change it.  So for each user the handle is a SharedFuture that is (or becomes) fulfilled with the Result the source
+   chain produced, and whose own functions have already been accounted for where it was built. *)
+Definition handle_of (os : out) : prog := PContract WS (o_ty os) XInline false (o_res os).
